@@ -39,6 +39,16 @@ CLAIMED = {
   note="Trusted: gowp, go/ssa, solvers; strings.Count/LastIndex per documentation; ottoError.describe (fmt) trusted; compiled node trees immutable (proved syntactically as a frame obligation).",
   technique="contract-based deductive verification: loop invariants for the trace limit, at_call state assertions, postconditions over go/ssa VCs discharged by z3/cvc5",
   ref="6 C19"),
+ "C17": dict(
+  text="Proof, per step of the graph cloner, of what Copy() copies, clones and never shares: cloner.object memoises (one copy per original object, entries never change); value/property/dclProperty/valueArray results are the memo-relational copy of their argument (primitives identical, every object reference the memo's copy, accessor sides cloned exactly when present, attributes equal); objectClone gives the copy the class, flags and class table of the original, the copy's runtime, the prototype through the memo, a freshly allocated property map whose entries are copies of the original's entries and a fresh property-order array with the same names in order, and clones the bound-function/arguments/closure payloads; the three environment-record clones and argumentsObject.clone likewise; runtime.clone replaces every well-known object position by position by its own copy and carries limits over; Copy returns a different Otto on a different runtime without the interrupt channel. Frame clauses prove that no step writes any pre-existing object, environment record, runtime, property table or array of the original (isolation at the moment of copying). Every function reachable through the objectClass.clone slot and the stasher.clone interface is proved against the slot contract (closed-world slotimpl obligation). Observational equivalence of arbitrary later scripts and completeness of map iteration are not covered.",
+  note="Trusted: gowp, go/ssa, solvers. Assumed heap invariants (assumes clauses, listed in evidence): class tables installed, stored properties hold Value or propertyGetSet, object references in Values non-nil, objectStash.object non-nil, well-known objects installed. One defect found and fixed (Copy panicked on closures of functions with a parameter named arguments).",
+  technique="contract-based deductive verification: memo-relational postconditions, ownership frames (preserves/writes_only_at) and slot contracts over go/ssa VCs discharged by z3/cvc5",
+  ref="6 C17"),
+ "C20": dict(
+  text="Proof of the sharing discipline that isolation of runtimes rests on: every package-level variable of otto, parser, ast, file, token (and registry except its registry list) is written only by package initialisers (globals_readonly obligation over all stores in the SSA of the package); compiled node trees are never written after construction and node slices are confined (stabletypes / confinement obligations); runtime.otto, object.runtime and the cloner tables have the declared writers only; Copy/clone share no mutable record between original and copy (C17 frames) and the copy has no interrupt channel. Data-race freedom under the Go memory model and arbitrary host-goroutine schedules are not covered (no concurrency reasoning in this technique).",
+  note="Trusted: gowp, go/ssa, solvers. Syntactic obligations are computed from the SSA of every function of the packages, not only those under contract. sync/atomic and mutex semantics not modelled.",
+  technique="contract-based deductive verification: frame/ownership obligations (globals read-only, stable fields, slice confinement) generated from go/ssa and discharged syntactically or by z3/cvc5",
+  ref="6 C20"),
 }
 
 NA = {
